@@ -41,6 +41,10 @@ class MemFS:
 
         hx.patch(x, builtins, 'open', fake_open)
         hx.patch(x, os.path, 'exists', lambda n: n in fs.files)
+        hx.patch(x, os.path, 'isfile', lambda n: n in fs.files)
+        self.env = {}
+        hx.patch(x, os, 'getenv',
+                 lambda k, default=None: fs.env.get(k, default))
         hx.patch(x, tempfile, 'TemporaryFile',
                  lambda **kw: hx.MemStream())
         hx.patch(x, util, 'write', lambda msg: fs.messages.append(msg))
